@@ -124,6 +124,10 @@ impl RecvHandle for Receiver {
             tracing::trace!("trying to read from transport");
             let len = self.read.read_buf(&mut self.buf).await?;
             tracing::trace!("read {len} bytes. buffer length is {}", self.buf.len());
+            if len == 0 {
+                tracing::debug!("transport closed by peer");
+                break Err(std::io::Error::from(std::io::ErrorKind::UnexpectedEof).into());
+            }
         }
     }
 }
